@@ -544,7 +544,25 @@ func checkSeparatorPerGap(p *core.Program, r *core.Report, g *wlGen, rule string
 // closureReturnsField: closure returns (load recv.field, 0).
 func closureReturnsField(mc *ssa.MakeClosure, recv *ssa.Alloc, field string) (bool, string) {
 	clo := mc.Fn.(*ssa.Function)
-	if len(mc.Bindings) != 1 || mc.Bindings[0] != ssa.Value(recv) {
+	okBind := len(mc.Bindings) == 1 && mc.Bindings[0] == ssa.Value(recv)
+	if !okBind && len(mc.Bindings) == 1 {
+		// a private copy of the recipe copy (made when a helper is expanded) is the same recipe
+		if al, isAl := mc.Bindings[0].(*ssa.Alloc); isAl {
+			n := 0
+			for _, ref := range core.Referrers(al) {
+				if st, isSt := ref.(*ssa.Store); isSt && st.Addr == ssa.Value(al) {
+					n++
+					if ld, isLd := st.Val.(*ssa.UnOp); isLd && ld.X == ssa.Value(recv) {
+						okBind = true
+					}
+				}
+			}
+			if n != 1 {
+				okBind = false
+			}
+		}
+	}
+	if !okBind {
 		return false, "closure does not capture the recipe copy"
 	}
 	for _, ret := range core.Returns(clo) {
